@@ -121,3 +121,293 @@ def drive_commands(ctx, runner, rng, hist, cmds_per_graph, cmd_weights, on_resul
         if rng.random() < 0.08:
             rows = []
     return True
+
+
+# ---------------------------------------------------------------------------------------------
+# property runner
+# ---------------------------------------------------------------------------------------------
+
+REV_TRUSTED = [
+    "Python set iteration order (tuple(set(...)) of normalized dependencies) is read from the implementation and given to the model, which checks it is a permutation of what it computed",
+    "SQLite in-memory alembic_version table + real HeadMaintainer are the observation point for rows (C03/C05)",
+    "exception classes are compared through a small enum (harness/rev_impl.py:err_name)",
+]
+
+
+def parse_impl_upgrade_targets(sd, rows, target):
+    try:
+        import warnings
+
+        with warnings.catch_warnings():
+            warnings.simplefilter("ignore")
+            t = sd.revision_map._parse_upgrade_target(tuple(rows), target, True)
+        return [r.revision for r in t]
+    except Exception:
+        return None
+
+
+def parse_impl_downgrade_target(sd, rows, target):
+    try:
+        import warnings
+
+        with warnings.catch_warnings():
+            warnings.simplefilter("ignore")
+            b, r = sd.revision_map._parse_downgrade_target(tuple(rows), target, True)
+            if r == "base":
+                r = None
+            br = None
+            if b:
+                brr = sd.revision_map._resolve_branch(b)
+                br = brr.revision if brr is not None else None
+        return {"target": r.revision if r is not None else None, "branch": br}
+    except Exception:
+        return None
+
+
+class Focus:
+    """what one property looks at"""
+
+    def __init__(self, prop, cmds, weights):
+        self.prop = prop
+        self.cmds = cmds
+        self.weights = weights
+
+
+FOCI = {
+    "C01": Focus("C01", ("upgrade",), [8, 2, 2]),
+    "C02": Focus("C02", ("downgrade",), [4, 6, 2]),
+    "C03": Focus("C03", ("upgrade", "downgrade"), [6, 5, 1]),
+    "C05": Focus("C05", ("stamp",), [4, 2, 6]),
+}
+
+
+def histories_for(ctx, rng):
+    """exhaustive small DAGs, then random larger ones"""
+    n_ex = 4 if ctx.thorough else 3
+    for n in range(1, n_ex + 1):
+        for hist in gen_graph.all_histories(n):
+            yield "exhaustive-%d" % n, hist
+    n_rand = 1500 if ctx.thorough else 160
+    for hist in random_histories(ctx, rng, n_rand, 2, 14 if ctx.thorough else 10):
+        yield "random", hist
+
+
+def run_focus(ctx, focus_name, rng_name="main", scale=1.0):
+    focus = FOCI[focus_name]
+    rng = ctx.rng(rng_name)
+    runner = RevRunner(ctx)
+    sds = {}
+    collected = []  # (c, impl, model, sd)
+
+    def on_result(c, impl, model):
+        collected.append((c, impl, model))
+
+    for kind, hist in histories_for(ctx, rng):
+        sd, info = rev_impl.load(hist)
+        if sd is None:
+            continue
+        key = json.dumps(hist, sort_keys=True)
+        sds[key] = sd
+        ctx.hist("graph", kind)
+        ctx.hist("n_revisions", len(hist))
+        ctx.hist("merge_points", sum(1 for r in hist if len(r["down"]) > 1))
+        ctx.hist("with_deps", sum(1 for r in hist if r["deps"]))
+        if kind.startswith("exhaustive"):
+            # every antichain state x every target of the focus commands
+            norm_order = info["normOrder"]
+            for rows in gen_graph.all_antichain_states(hist):
+                for cmd in focus.cmds:
+                    pool = targets_for(rng, hist, info, cmd, rows)
+                    seen = set()
+                    for t in pool:
+                        tk = json.dumps(t)
+                        if tk in seen:
+                            continue
+                        seen.add(tk)
+                        runner.case(hist, sd, norm_order, rows, cmd, t)
+        else:
+            drive_commands(ctx, runner, rng, hist, int((14 if ctx.thorough else 10) * scale), focus.weights, on_result)
+        if len(runner.pending) > 4000:
+            runner.flush(on_result)
+            judge(ctx, focus, collected, sds)
+            collected = []
+    runner.flush(on_result)
+    judge(ctx, focus, collected, sds)
+    runner.close()
+    ctx.exhaustive = False
+
+
+def judge(ctx, focus, collected, sds):
+    """correspondence + Lean spec checkers on the implementation's output"""
+    spec_ops = []
+    spec_meta = []
+    for c, impl, model in collected:
+        cmd = c["cmd"]
+        ctx.evaluation()
+        ctx.hist("cmd", cmd)
+        if cmd not in focus.cmds:
+            continue
+        ci, cm = canon_cmd(impl), canon_cmd(model)
+        # what this property compares
+        if focus.prop in ("C01", "C02"):
+            a = {k: ci.get(k) for k in ("err", "steps")}
+            b = {k: cm.get(k) for k in ("err", "steps")}
+        else:
+            a, b = ci, cm
+        inp = {k: c[k] for k in c}
+        if a != b:
+            ctx.disagree("rev.cmd", inp, a, b)
+        else:
+            ctx.trace_ok()
+        if "err" in impl:
+            ctx.hist("impl_error", impl["err"])
+        tgt = c.get("target", c.get("targets"))
+        ctx.hist("target_kind", target_kind(tgt))
+        sd = sds[json.dumps(c["revs"], sort_keys=True)]
+        h = {"revs": c["revs"]}
+        if focus.prop == "C01" and "steps" in impl:
+            plan = [s["rev"] for s in impl["steps"]]
+            if plan:
+                ctx.nontrivial(("up", json.dumps(c["revs"], sort_keys=True), tuple(sorted(c["rows"])), tgt))
+            it = parse_impl_upgrade_targets(sd, c["rows"], c["target"])
+            spec_ops.append({"op": "rev.spec.targets", **h, "ident": c["target"]})
+            spec_meta.append(("targets", inp, impl, it))
+        elif focus.prop == "C02":
+            pt = parse_impl_downgrade_target(sd, c["rows"], c["target"])
+            if pt is not None and ("steps" in impl or impl.get("err") == "rangeNotAncestor"):
+                if "steps" in impl:
+                    plan = [s["rev"] for s in impl["steps"]]
+                    if plan:
+                        ctx.nontrivial(("down", json.dumps(c["revs"], sort_keys=True), tuple(sorted(c["rows"])), tgt))
+                    spec_ops.append({"op": "rev.spec.downgrade", **h, "rows": c["rows"], "plan": plan,
+                                     **({"target": pt["target"]} if pt["target"] else {}),
+                                     **({"branch": pt["branch"]} if pt["branch"] else {})})
+                    spec_meta.append(("downgrade", inp, impl, pt))
+                spec_ops.append({"op": "rev.spec.refuse", **h, "rows": c["rows"],
+                                 **({"target": pt["target"]} if pt["target"] else {}),
+                                 **({"branch": pt["branch"]} if pt["branch"] else {})})
+                spec_meta.append(("refuse", inp, impl, pt))
+                spec_ops.append({"op": "rev.spec.targets", **h, "ident": c["target"]})
+                spec_meta.append(("dtarget", inp, impl, pt))
+        elif focus.prop == "C03" and "steps" in impl:
+            if impl["steps"]:
+                ctx.nontrivial((cmd, json.dumps(c["revs"], sort_keys=True), tuple(sorted(c["rows"])), tgt))
+            spec_ops.append({"op": "rev.spec.trace", **h, "rows": c["rows"], "steps": impl["steps"][: len(impl["trace"])],
+                             "trace": [t["rows"] for t in impl["trace"]]})
+            spec_meta.append(("trace", inp, impl, None))
+        elif focus.prop == "C05" and "steps" in impl:
+            if impl["steps"]:
+                ctx.nontrivial(("stamp", json.dumps(c["revs"], sort_keys=True), tuple(sorted(c["rows"])), json.dumps(tgt)))
+            for t in c["targets"]:
+                spec_ops.append({"op": "rev.spec.targets", **h, "ident": t})
+                spec_meta.append(("starget", inp, impl, None))
+    if not spec_ops:
+        return
+    ans = ctx.drv.ask(spec_ops)
+    second = []
+    second_meta = []
+    k = 0
+    while k < len(ans):
+        kind, inp, impl, extra = spec_meta[k]
+        a = ans[k]
+        h = {"revs": inp["revs"]}
+        if kind == "targets":
+            plan = [s["rev"] for s in impl["steps"]]
+            if "targets" in a:
+                targets = a["targets"]
+                if extra is not None and sorted(extra) != sorted(targets):
+                    ctx.fail(inp, "target-resolution: upgrade target resolves to %s, documented meaning is %s" % (extra, targets), impl=impl, tags=["resolution"])
+            else:
+                targets = extra
+            if targets is not None:
+                second.append({"op": "rev.spec.upgrade", **h, "rows": inp["rows"], "targets": targets, "plan": plan})
+                second_meta.append(("upgrade", inp, impl, targets))
+            k += 1
+        elif kind == "downgrade":
+            if a.get("holds") is not True:
+                ctx.fail(inp, "downgrade-plan: plan %s is not exactly the applied dependents of target %s, children first" % ([s["rev"] for s in impl["steps"]], extra), impl=impl, tags=["plan"])
+            k += 1
+        elif kind == "refuse":
+            must = a.get("mustRefuse")
+            refused = impl.get("err") == "rangeNotAncestor"
+            if must and not refused and "steps" in impl:
+                ctx.fail(inp, "not-refused: nothing to remove and database not at the target %s, but a plan was returned" % (extra,), impl=impl, tags=["refuse"])
+            if refused and not must:
+                ctx.fail(inp, "wrongly-refused: downgrade refused although target %s is current or something is removable" % (extra,), impl=impl, tags=["refuse"])
+            k += 1
+        elif kind == "dtarget":
+            if "targets" in a and "steps" in impl:
+                want = a["targets"][0] if a["targets"] else None
+                if len(a["targets"]) <= 1 and extra["target"] != want:
+                    ctx.fail(inp, "target-resolution: downgrade target resolves to %s, documented meaning is %s" % (extra["target"], want), impl=impl, tags=["resolution"])
+            k += 1
+        elif kind == "trace":
+            if impl.get("stepErr") and a.get("startOk"):
+                ctx.fail(inp, "bookkeeping-failed: %s while recording step %d of a plan Alembic produced" % (impl["stepErr"], len(impl["trace"])), impl=impl, tags=["stepErr"])
+            elif a.get("startOk") and a.get("holds") is not True:
+                ctx.fail(inp, "rows-not-heads: after some step the version table is not the set of maximal applied revisions", impl=impl, tags=["rows"])
+            elif not a.get("startOk"):
+                ctx.hist("skipped", "start state is not an antichain")
+            k += 1
+        elif kind == "starget":
+            # gather all targets of this stamp command
+            n = len(inp["targets"])
+            group = ans[k : k + n]
+            k += n
+            if all("targets" in g for g in group) and "stepErr" not in impl:
+                dests = []
+                for g in group:
+                    for t in g["targets"]:
+                        if t not in dests:
+                            dests.append(t)
+                rows2 = impl["trace"][-1]["rows"] if impl["trace"] else inp["rows"]
+                second.append({"op": "rev.spec.antichain", **h, "rows": inp["rows"]})
+                second_meta.append(("stamp-pre", inp, impl, dests))
+                second.append({"op": "rev.spec.antichain", **h, "rows": dests})
+                second_meta.append(("stamp-pre2", inp, impl, dests))
+                second.append({"op": "rev.spec.stamp", **h, "rows": inp["rows"], "dests": dests, "rows2": rows2})
+                second_meta.append(("stamp", inp, impl, dests))
+            elif "stepErr" in impl:
+                second.append({"op": "rev.spec.antichain", **h, "rows": inp["rows"]})
+                second_meta.append(("stamp-err", inp, impl, None))
+        else:
+            k += 1
+    if second:
+        ans2 = ctx.drv.ask(second)
+        pre_ok = True
+        for (kind, inp, impl, extra), a in zip(second_meta, ans2):
+            if kind == "upgrade":
+                if a.get("holds") is not True:
+                    ctx.fail(inp, "upgrade-plan: plan %s is not exactly the missing ancestors of %s in dependency order" % ([s["rev"] for s in impl["steps"]], extra), impl=impl, tags=["plan"])
+            elif kind == "stamp-pre":
+                pre_ok = a.get("holds") is True
+            elif kind == "stamp-pre2":
+                pre_ok = pre_ok and a.get("holds") is True
+            elif kind == "stamp":
+                if pre_ok and a.get("holds") is not True:
+                    ctx.fail(inp, "stamp-rows: rows after stamp are not (rows minus lineage of the destinations) plus the destinations %s" % (extra,), impl=impl,
+                             tags=["multi" if len(extra) > 1 else "single"])
+                elif not pre_ok:
+                    ctx.hist("skipped", "start rows or destinations are not an antichain")
+            elif kind == "stamp-err":
+                if a.get("holds") is True:
+                    ctx.fail(inp, "bookkeeping-failed: %s while recording a stamp step" % impl["stepErr"], impl=impl, tags=["stepErr"])
+    for c, impl, model in collected[:2]:
+        if c["cmd"] in focus.cmds:
+            ctx.sample({"history": c["revs"], "rows": c["rows"], "cmd": c["cmd"], "target": c.get("target", c.get("targets")),
+                        "impl": canon_cmd(impl)})
+
+
+def target_kind(t):
+    if isinstance(t, list):
+        return "multi" if len(t) > 1 else target_kind(t[0])
+    if t in ("head", "heads", "base"):
+        return t
+    k = []
+    if "@" in t:
+        k.append("label@")
+    if "+" in t:
+        k.append("+N")
+    elif "-" in t:
+        k.append("-N")
+    return "".join(k) or "id"
